@@ -125,6 +125,19 @@ R.contract(
     modifies=["self._script_name", "self._tokens", "self._option_tokens"],
     note="argv=None (sys.argv) is outside the contract",
 )
+# the same for an argv without a script name: whatever the constructor does with it (today: IndexError), the caller's
+# list is left alone
+R.contract(
+    M_ARGV + ":ArgvArgs.__init__", variant="empty",
+    params={"argv": "list[str]"},
+    requires=["len(argv) == 0"],
+    ensures=["len(argv) == 0"],
+    raises={"IndexError": "True"},
+    ensures_on_raise={"IndexError": ["len(argv) == 0"]},
+    modifies=["self._script_name", "self._tokens", "self._option_tokens"],
+    note="an empty argv: the list of the caller stays empty",
+).never_returns = True  # (today the constructor raises IndexError for it: no normal exit has to be reachable)
+ARGV_EMPTY = {"qual": M_ARGV + ":ArgvArgs.__init__", "tag": "empty"}
 R.contract(
     M_SARGS + ":StringArgs.__init__",
     params={"string": "str"},
